@@ -1,4 +1,5 @@
 import EaselModel.Stats.Histogram
+import EaselModel.Generated.C11Src
 /-! # Executable model of the maximum-likelihood fits (C11, kind H)
 
 `esl_exp_FitComplete`, `esl_exp_FitCompleteScale`, `esl_exp_FitCompleteBinned`, `esl_lognormal_FitComplete`,
@@ -191,7 +192,7 @@ def gumbelLambda (f : α → α × α) (variance : α) (firstAtRight : Bool) : O
 def gumbelFitComplete (xs : Array α) : FitRes α :=
   if xs.size ≤ 1 then .res .einval #[zero, zero] else
   let variance := (dmean xs).2
-  match gumbelLambda (lawless416 xs) variance false with
+  match gumbelLambda (lawless416 xs) variance fitCompleteBracketsAtRight with
   | .fault => .hang
   | .val none => .res .enoresult #[zero, zero]
   | .val (some lambda) =>
